@@ -366,11 +366,53 @@ pub fn cyclic_parents(rng: &mut Rng, layout: &Layout) -> DocSpec {
     b.finish(catalog, &layout, rng)
 }
 
+/// A page tree as deep as `File::get_page` accepts (the root plus up to 15 nested /Pages nodes),
+/// with a leaf at the bottom and one at every third level.
+pub fn deep_tree(rng: &mut Rng, layout: &Layout) -> DocSpec {
+    let mut b = Builder::new();
+    let catalog = b.reserve();
+    let depth = 10 + rng.usize(6); // nested nodes below the root: 10..=15
+    let nodes: Vec<u32> = (0..=depth).map(|_| b.reserve()).collect();
+    let mut counts = vec![0i64; depth + 1];
+    let mut extra_leaf: Vec<Option<u32>> = vec![None; depth + 1];
+    for i in 0..=depth {
+        if i == depth || i % 3 == 2 {
+            let leaf = b.add(Val::dict(vec![("Type", Val::name("Page")), ("Parent", Val::r(nodes[i])), ("Resources", Val::dict(vec![]))]));
+            extra_leaf[i] = Some(leaf);
+        }
+    }
+    for i in (0..=depth).rev() {
+        let mut kids = vec![];
+        let mut count = 0;
+        if i < depth {
+            kids.push(Val::r(nodes[i + 1]));
+            count += counts[i + 1];
+        }
+        if let Some(l) = extra_leaf[i] {
+            kids.push(Val::r(l));
+            count += 1;
+        }
+        counts[i] = count;
+        let mut d = vec![("Type", Val::name("Pages")), ("Kids", Val::Arr(kids)), ("Count", Val::Int(count))];
+        if i > 0 {
+            d.push(("Parent", Val::r(nodes[i - 1])));
+        } else {
+            d.push(("MediaBox", rect(0, 0, 400, 400)));
+        }
+        b.put(nodes[i], Val::dict(d));
+    }
+    b.put(catalog, Val::dict(vec![("Type", Val::name("Catalog")), ("Pages", Val::r(nodes[0]))]));
+    let mut layout = layout.clone();
+    layout.keep_direct.push(catalog);
+    b.finish(catalog, &layout, rng)
+}
+
 #[derive(Clone, Debug, PartialEq)]
 pub enum Family {
     Rich,
     TwoLeaf,
     CyclicParents,
+    DeepTree,
 }
 impl Family {
     pub fn name(&self) -> &'static str {
@@ -378,6 +420,7 @@ impl Family {
             Family::Rich => "rich",
             Family::TwoLeaf => "two_leaf",
             Family::CyclicParents => "cyclic_parents",
+            Family::DeepTree => "deep_tree",
         }
     }
 }
@@ -391,5 +434,6 @@ pub fn generate(family: &Family, rng: &mut Rng) -> DocSpec {
         }
         Family::TwoLeaf => two_leaf(rng, &layout),
         Family::CyclicParents => cyclic_parents(rng, &layout),
+        Family::DeepTree => deep_tree(rng, &layout),
     }
 }
